@@ -44,8 +44,8 @@ ASSUMPTIONS = [
 ]
 REAL_STUB = {"real": ["Node.shard / set_pipeline_stage / sharding_of", "Model.add/remove_device_configuration", "_multi_device check", "serde multi-device fields", "_cloner remapping"], "stub": [], "harness_extension_points": []}
 
-OPS = ["add_cfg", "remove_cfg", "shard", "shard_invalid", "stage", "stage_invalid", "rename_value", "rename_node", "replace_input", "resize_inputs", "resize_outputs", "clone", "reload", "add_node", "remove_cfg_name", "shadow_rename"]
-WEIGHTS = [4, 3, 16, 8, 5, 2, 6, 3, 8, 3, 4, 3, 4, 2, 2, 4]
+OPS = ["add_cfg", "remove_cfg", "shard", "shard_invalid", "stage", "stage_invalid", "rename_value", "rename_node", "replace_input", "resize_inputs", "resize_outputs", "clone", "reload", "add_node", "remove_cfg_name", "shadow_rename", "annotate_direct"]
+WEIGHTS = [4, 3, 16, 8, 5, 2, 6, 3, 8, 3, 4, 3, 4, 2, 2, 4, 5]
 
 
 def gen_case(run_seed: int, tier: str, index: int = 0) -> dict:
@@ -277,6 +277,29 @@ def run_case(case: dict) -> dict:
                         before = snapshot.snapshot(w, tensors=False)
                 node.shard(v, **kw)
                 inc("shard_applied")
+            elif op == "annotate_direct":
+                # the record types themselves are public: a sharding spec that replicates shards over device GROUPS
+                # (negative device entries resolved through index_to_device_group_map) and shards a symbolic dimension
+                if node is None or not cfgs:
+                    continue
+                cfg = cfgs[b % len(cfgs)]
+                if any(dc.configuration is cfg for dc in node.device_configurations):
+                    continue
+                io = [v for v in list(node.inputs) + list(node.outputs) if v is not None and v.name]
+                io = [v for v in io if v.shape is not None and len(v.shape) > 0]
+                if not io:
+                    continue
+                v = io[c % len(io)]
+                members = tuple(sorted({x % cfg.num_devices for x in ((c >> 4) % 5, (c >> 7) % 5)}))
+                dim = ir.SymbolicDim("N") if (c >> 10) % 2 else int(v.shape[0]) if isinstance(v.shape[0], int) else ir.SymbolicDim(None)
+                spec = ir.ShardingSpec(
+                    value=v,
+                    device=(-1,) + ((0,) if (c >> 11) % 2 else ()),
+                    index_to_device_group_map=(ir.IndexToDeviceGroupMapEntry(key=-1, value=members),),
+                    sharded_dims=(ir.ShardedDim(axis=(c >> 12) % len(v.shape), simple_shardings=(ir.SimpleShardedDim(dim=dim, num_shards=1 + (c >> 14) % 3),)),),
+                )
+                node.device_configurations = tuple(node.device_configurations) + (ir.NodeDeviceConfiguration(configuration=cfg, sharding_specs=(spec,), pipeline_stage=None if (c >> 16) % 2 else (c >> 17) % 3),)
+                inc("annotate_direct_group_map")
             elif op in ("stage", "stage_invalid"):
                 if node is None or not cfgs:
                     continue
